@@ -55,6 +55,19 @@ def prefix_sums_monotone(a, p):
         pass
 
 
+@lemma(args={"a": "array[int]", "pa": "array[int]", "b": "array[int]", "pb": "array[int]", "k": "int"})
+def point_decrement_sum(a, pa, b, pb, k):
+    """Taking one off a single element takes one off every partial sum from that element on (termination measure of
+    the deferred-acceptance loop: the candidates left over all storms)."""
+    requires(is_prefix_sums(a, pa) and is_prefix_sums(b, pb) and len(a) == len(b))
+    requires(0 <= k and k < len(a))
+    requires(b[k] == a[k] - 1 and forall(0, len(a), lambda i: implies(i != k, b[i] == a[i])))
+    ensures(forall(0, len(a), lambda j: pb[j] == pa[j] - (1 if j >= k else 0)))
+    loop(0, inv=lambda it: forall(0, it, lambda j: pb[j] == pa[j] - (1 if j >= k else 0)))
+    for j in range(len(a)):
+        pass
+
+
 @lemma(args={"d": "array[real]", "c": "array[real]", "g": "array[real]"})
 def telescoping(d, c, g):
     """Cumulative sums of consecutive differences telescope."""
